@@ -714,6 +714,130 @@ fn multiclass_svm_one_vs_all() -> Result<Fp, String> {
     Ok(fp)
 }
 
+// ---------- hard inputs: fits that do not converge / degenerate data, where fallback, retry and
+// error paths run (a reproducible estimator is reproducible there too; Err and panic texts are
+// compared like results) ----------
+fn diffusion_map_slowly_converging() -> Result<Fp, String> {
+    use linfa_kernel::{Kernel, KernelMethod, KernelType};
+    use linfa_reduction::DiffusionMap;
+    let mut fp = Fp::new();
+    // points on a line with a narrow 3-nearest-neighbour kernel: eigenvalues cluster below 1, the
+    // truncated eigensolver does not reach its tolerance
+    let line = Array2::from_shape_fn((150, 1), |(i, _)| i as f64 * 0.1);
+    let kernel = Kernel::params().kind(KernelType::Sparse(3)).method(KernelMethod::Gaussian(0.05)).transform(line.view());
+    let m = DiffusionMap::<f64>::params(2).steps(1).transform(&kernel).map_err(e)?;
+    b2(&mut fp, m.embedding());
+    b1(&mut fp, m.eigvals());
+    // two far-apart groups: a (numerically) disconnected graph, eigenvalue 1 is double
+    let two = Array2::from_shape_fn((80, 2), |(i, j)| if i < 40 { i as f64 * 0.05 + j as f64 } else { 1000.0 + i as f64 * 0.05 - j as f64 });
+    let kernel = Kernel::params().kind(KernelType::Sparse(4)).method(KernelMethod::Gaussian(0.5)).transform(two.view());
+    match DiffusionMap::<f64>::params(3).steps(2).transform(&kernel) {
+        Ok(m) => {
+            b2(&mut fp, m.embedding());
+            b1(&mut fp, m.eigvals());
+        }
+        Err(x) => fp.extend(e(x).bytes().map(|b| b as u64)),
+    }
+    Ok(fp)
+}
+fn pca_hard() -> Result<Fp, String> {
+    use linfa_reduction::Pca;
+    let mut fp = Fp::new();
+    // k close to p on a small, nearly low-rank matrix: the truncated solver breaks down here (known
+    // finding of C18) - whatever it returns has to be the same every time
+    let x = Array2::from_shape_fn((16, 5), |(i, j)| {
+        let (a, b) = ((i % 4) as f64, (i / 4) as f64);
+        a * (j as f64 + 1.0) + b * ((j * j) as f64 - 2.0) + 1e-7 * (((i * 7 + j * 3) % 11) as f64)
+    });
+    let ds = Dataset::from(x.clone());
+    for k in [2usize, 3, 4] {
+        for whiten in [false, true] {
+            match Pca::params(k).whiten(whiten).fit(&ds) {
+                Ok(m) => {
+                    b2(&mut fp, m.components());
+                    b1(&mut fp, m.singular_values());
+                    b2(&mut fp, &m.predict(&x));
+                }
+                Err(x) => fp.extend(e(x).bytes().map(|b| b as u64)),
+            }
+        }
+    }
+    Ok(fp)
+}
+fn iterative_fits_stopped_early() -> Result<Fp, String> {
+    use linfa_clustering::{GaussianMixtureModel, KMeans};
+    use linfa_elasticnet::ElasticNet;
+    use linfa_ica::fast_ica::{FastIca, GFunc};
+    use linfa_logistic::{LogisticRegression, MultiLogisticRegression};
+    let mut fp = Fp::new();
+    let mut err = |fp: &mut Fp, s: String| fp.extend(s.bytes().map(|b| b as u64));
+    // k-means: more clusters than distinct points (empty clusters), and an iteration budget of 1
+    let dup = Array2::from_shape_fn((40, 2), |(i, j)| ((i % 3) * (j + 1)) as f64);
+    let ds = Dataset::from(dup.clone());
+    for (k, it) in [(5usize, 50u64), (3, 1), (2, 1)] {
+        match KMeans::params_with_rng(k, rng(3)).max_n_iterations(it).n_runs(2).tolerance(1e-12).fit(&ds) {
+            Ok(m) => {
+                b2(&mut fp, m.centroids());
+                bu(&mut fp, m.predict(&dup).as_slice().unwrap());
+            }
+            Err(x) => err(&mut fp, e(x)),
+        }
+    }
+    // Gaussian mixture on duplicated points with a tiny regularisation, and stopped after 1 iteration
+    for (k, reg, it) in [(3usize, 1e-12, 20u64), (2, 1e-6, 1), (4, 0.0, 5)] {
+        match GaussianMixtureModel::params_with_rng(k, rng(5)).reg_covariance(reg).max_n_iterations(it).n_runs(2).fit(&ds) {
+            Ok(m) => {
+                b2(&mut fp, m.means());
+                b1(&mut fp, m.weights());
+                bu(&mut fp, m.predict(&dup).as_slice().unwrap());
+            }
+            Err(x) => err(&mut fp, e(x)),
+        }
+    }
+    // separable logistic regression without penalty, few iterations: stops at the budget
+    let (x, y) = blobs(90, 2, 3, 77);
+    let sep = Dataset::new(x.clone(), y.mapv(|c| c == 0));
+    match LogisticRegression::default().alpha(0.0).max_iterations(3).fit(&sep) {
+        Ok(m) => {
+            b1(&mut fp, m.params());
+            bf(&mut fp, m.intercept());
+        }
+        Err(x) => err(&mut fp, e(x)),
+    }
+    let multi = Dataset::new(x.clone(), y.clone());
+    match MultiLogisticRegression::default().alpha(0.0).max_iterations(3).fit(&multi) {
+        Ok(m) => {
+            b2(&mut fp, m.params());
+            b1(&mut fp, m.intercept());
+        }
+        Err(x) => err(&mut fp, e(x)),
+    }
+    // elastic net stopped by its iteration budget, collinear columns
+    let col = Array2::from_shape_fn((30, 3), |(i, j)| if j == 2 { 2.0 * i as f64 } else { i as f64 + (j * (i % 4)) as f64 });
+    let t = Array1::from_shape_fn(30, |i| (i % 7) as f64 - 0.3 * i as f64);
+    let ds = Dataset::new(col.clone(), t);
+    match ElasticNet::params().penalty(1e-6).l1_ratio(1.0).max_iterations(4).tolerance(1e-14).fit(&ds) {
+        Ok(m) => {
+            b1(&mut fp, m.hyperplane());
+            bf(&mut fp, m.intercept());
+            bf(&mut fp, m.duality_gap());
+            fp.push(m.n_steps() as u64);
+            match m.z_score() {
+                Ok(z) => b1(&mut fp, &z),
+                Err(x) => err(&mut fp, e(x)),
+            }
+        }
+        Err(x) => err(&mut fp, e(x)),
+    }
+    // FastICA stopped after two iterations
+    let (x, _) = blobs(100, 3, 2, 78);
+    match FastIca::params().ncomponents(3).gfunc(GFunc::Cube).max_iter(2).tol(1e-14).random_state(4).fit(&Dataset::from(x.clone())) {
+        Ok(m) => b2(&mut fp, &m.predict(&x)),
+        Err(x) => err(&mut fp, e(x)),
+    }
+    Ok(fp)
+}
+
 pub fn registry() -> Vec<Entry> {
     macro_rules! ent {
         ($($f:ident),* $(,)?) => { vec![$(Entry { name: stringify!($f), run: $f }),*] };
@@ -728,6 +852,7 @@ pub fn registry() -> Vec<Entry> {
         tree_blobs, tree_ties, tree_ties_strings_weighted, tree_weighted_nondyadic,
         gaussian_nb_ties, gaussian_nb_blobs, multinomial_nb_ties, ftrl_default_seed,
         pca, random_projections, diffusion_map, fast_ica_seeded,
+        diffusion_map_slowly_converging, pca_hard, iterative_fits_stopped_early,
         scalers, whiteners, vectorizers, platt, one_vs_all_and_confusion, multiclass_svm_one_vs_all,
     ]
 }
